@@ -57,8 +57,12 @@ func (g *gen) Add(name string, typs []types.Type) (string, error) {
 	if len(typs) != 1 {
 		return "", fmt.Errorf("%s does not have one argument", name)
 	}
-	if _, ok := typs[0].(*types.Signature); !ok {
+	sig, ok := typs[0].(*types.Signature)
+	if !ok {
 		return "", fmt.Errorf("%s, the argument, %s, is not of type func", name, typs[0])
+	}
+	if sig.Variadic() {
+		return "", fmt.Errorf("%s, the argument, %s, is a variadic function, which is not supported", name, g.TypeString(sig))
 	}
 	return g.SetFuncName(name, typs[0])
 }
